@@ -316,8 +316,8 @@ theorem initFields_congr (a1 a2 : String → Val → Trace → Out) (h : ∀ n v
   | nil => rfl
   | cons f fs ih => simp only [initFields, h, ih]
 
-theorem assignFields_congr (a1 a2 : String → Val → Trace → Out) (h : ∀ n v tr, a1 n v tr = a2 n v tr)
-    (fs : List Fld) (v : Val) (tr : Trace) : assignFields a1 fs v tr = assignFields a2 fs v tr := by
+theorem assignFields_congr (cv : Bool) (a1 a2 : String → Val → Trace → Out) (h : ∀ n v tr, a1 n v tr = a2 n v tr)
+    (fs : List Fld) (v : Val) (tr : Trace) : assignFields cv a1 fs v tr = assignFields cv a2 fs v tr := by
   induction fs generalizing tr with
   | nil => rfl
   | cons f fs ih => simp only [assignFields, h, ih]
@@ -346,5 +346,18 @@ theorem initFields_own_field (t : ConvTree) (fs : List Fld) (v : Val) (tr : Trac
     initFields (fun name v tr => initApply (build t) v name tr) fs v tr
       = initFields (fun name v tr => ref t selfText (fieldText name) v tr) fs v tr :=
   initFields_congr _ _ (fun n v tr => by rw [initApply_eq_applyObj, applyObj_build]) fs v tr
+
+/-- fields without a converter in front of a converter field change nothing for it: with a convert hook the
+    assignment to the converter field is converted in the history as it stood, whatever precedes it -/
+theorem assignFields_after_hookless (apply : String → Val → Trace → Out) (pre : List Fld) (f : Fld)
+    (hpre : ∀ g ∈ pre, g.kind = .validator ∨ g.kind = .plain) (hf : f.kind = .shared) (v : Val) (tr : Trace) :
+    assignFields true apply (pre ++ [f]) v tr
+      = (pre.map (fun _ => (Res.ok v).render) ++ [(apply f.name v tr).1.render], (apply f.name v tr).2) := by
+  induction pre with
+  | nil => simp [assignFields, hf]
+  | cons g gs ih =>
+    have hg := hpre g List.mem_cons_self
+    have ih' := ih (fun x hx => hpre x (List.mem_cons_of_mem _ hx))
+    rcases hg with hg | hg <;> simp [assignFields, hg, ih']
 
 end Attrs.C19.Conv
